@@ -307,10 +307,12 @@ pub fn c07_variants(tier: &str, words: &[u32]) -> Vec<Variant> {
     // 9 (fixed) / 11 (variable ids): a two-identity header fits, a
     // three-identity one (PingReq, IndirectPing, ...) does not: header
     // encoding fails mid-way and the next datagram must still be clean
-    for (var, packet) in [(false, 1400usize), (false, 21), (true, 26), (false, 12), (false, 9), (true, 11)] {
+    // max_transmissions 1: broadcast() drains the backlog with its first
+    // datagram and stops early (scratch buffers keep what was not used)
+    for (var, packet, mt) in [(false, 1400usize, 3u8), (false, 1400, 1), (false, 21, 3), (true, 26, 3), (false, 12, 3), (false, 9, 3), (true, 11, 3)] {
         let me = id(A, 1).with(Renew::Next);
-        let cfg = Cfg { max_packet: packet, fanout: 2, notify_down: true, gossip: Some((200, 2)), announce_down: Some((500, 1)), ..Cfg::default() };
-        let mut s = CoreSpec::new(&format!("c07-{}-pkt{packet}", if var { "var" } else { "fix" }), me, cfg);
+        let cfg = Cfg { max_packet: packet, max_tx: mt, fanout: 2, notify_down: true, gossip: Some((200, 2)), announce_down: Some((500, 1)), ..Cfg::default() };
+        let mut s = CoreSpec::new(&format!("c07-{}-pkt{packet}-mt{mt}", if var { "var" } else { "fix" }), me, cfg);
         s.codec = FixCodec { var };
         s.words = words.to_vec();
         s.mons.c07 = true;
@@ -330,7 +332,7 @@ pub fn c07_variants(tier: &str, words: &[u32]) -> Vec<Variant> {
         s.seed_hists.push(seed(&s, |sb| {
             sb.ev(Ev::Apply(vec![al(id(B, 0)), al(id(C, 1)), al(id(D, 2))], true));
         }));
-        let l = if th { lim(5, 5, 6_000_000, 600.0) } else { lim(3, 3, 600_000, 8.0) };
+        let l = if th { lim(5, 5, 6_000_000, 600.0) } else if packet == 1400 { lim(4, 4, 2_500_000, 25.0) } else { lim(3, 3, 600_000, 8.0) };
         out.push(Variant { spec: s, lim: l });
     }
     out
